@@ -1,10 +1,13 @@
 #!/bin/sh
 # usage: try_seed_wt.sh <worktree-with-change> <property> [tier]
-# Runs the check against a scratch worktree's source (PYTHONPATH first) without touching /repo.
+# Runs the check against a scratch worktree's source (PYTHONPATH first) without touching /repo; evidence and replay
+# files of that run go to a scratch directory so that the evidence of the real tree is not overwritten.
 set -u
 WT=$1; PROP=$2; TIER=${3:-quick}
-cd /verif && PYTHONPATH=$WT/src PYVC_REPLAY_DIR=/tmp/exp/seed_replays .venv/bin/python -c "
+OUTDIR=${PYVC_OUT_DIR:-/tmp/pyvc_seed_out}
+mkdir -p "$OUTDIR"
+cd /verif && PYTHONPATH=$WT/src .venv/bin/python -c "
 import twisted, sys
 assert twisted.__file__.startswith('$WT'), twisted.__file__
 " || exit 2
-PYTHONPATH=$WT/src .venv/bin/python -m pyvc.check "$PROP" --tier "$TIER" 2>&1 | grep -v conda | grep -E "VIOLATION|KNOWN|tier=|CHECKER|undecided" | cut -c1-260 | head -12
+PYVC_OUT_DIR=$OUTDIR PYTHONPATH=$WT/src .venv/bin/python -m pyvc.check "$PROP" --tier "$TIER" 2>&1 | grep -v conda | grep -E "VIOLATION|KNOWN|tier=|CHECKER|undecided" | cut -c1-260 | head -12
